@@ -459,7 +459,7 @@ func (g *Gen) boundary() string {
 	g.bcount++
 	if g.Prefix && len(g.encl) > 0 && g.Rng.Chance(0.6) {
 		outer := g.encl[len(g.encl)-1]
-		cand := outer + []string{"-alt", "x", "2", "-", "_=1"}[g.Rng.Pick(5)]
+		cand := outer + []string{"-alt", "x", "2", ".x", "_=1"}[g.Rng.Pick(5)] // never "-": outer+"--" would be the closing delimiter of the outer
 		if g.Rng.Chance(0.3) && len(outer) > 2 {
 			cand = outer[:len(outer)-1] // the inner boundary is a proper prefix of the outer one
 		}
